@@ -463,7 +463,7 @@ class _Add(Base):
                 # labels: when both fully labelled with the same set in different order the library transposes `b`
                 if a.labels != b.labels and None not in a.labels and None not in b.labels and set(a.labels) == set(b.labels):
                     continue  # (exercised separately by 'add_transposed')
-                for kind in ('add', 'sub', 'iadd', 'isub', 'iadd_prefactor', 'binary_blockwise'):
+                for kind in ('add', 'sub', 'iadd', 'isub', 'iadd_prefactor', 'binary_blockwise', 'bb_subtract', 'ibb_general'):
                     yield ('add', i, j, kind)
 
     def run(self, heap, p):
@@ -475,6 +475,11 @@ class _Add(Base):
             return dict(kind='new', arr=a - b)
         if kind == 'binary_blockwise':
             return dict(kind='new', arr=a.binary_blockwise(np.add, b))
+        if kind == 'bb_subtract':
+            return dict(kind='new', arr=a.binary_blockwise(np.subtract, b))
+        if kind == 'ibb_general':  # any function with f(0, 0) = 0 is allowed; not symmetric, not linear in one block alone
+            r = a.ibinary_blockwise(lambda x, y: y - 2 * x, b)
+            return dict(kind='inplace', target=i, ret=r)
         if kind == 'iadd':
             a += b
             return dict(kind='inplace', target=i, ret=a)
@@ -489,11 +494,13 @@ class _Add(Base):
         a, b = shs[i], shs[j]
         if kind in ('add', 'iadd', 'binary_blockwise'):
             d = a.dense + b.dense
-        elif kind in ('sub', 'isub'):
+        elif kind in ('sub', 'isub', 'bb_subtract'):
             d = a.dense - b.dense
+        elif kind == 'ibb_general':
+            d = b.dense - 2 * a.dense
         else:
             d = a.dense + 2 * b.dense
-        if kind in ('iadd', 'isub', 'iadd_prefactor'):
+        if kind in ('iadd', 'isub', 'iadd_prefactor', 'ibb_general'):
             d = d.astype(np.result_type(a.dense.dtype, b.dense.dtype))
         return Shadow(d, list(a.legs), a.labels, a.qtotal, a.ch)
 
